@@ -178,14 +178,16 @@ def get_branch_type(opcode: int) -> bool | None:  # noqa: D103
             | "POP_JUMP_BACKWARD_IF_TRUE"
             | "POP_JUMP_FORWARD_IF_NOT_NONE"
             | "POP_JUMP_BACKWARD_IF_NOT_NONE"
+            # The none-based jumps are traced as `is None` and `is not None`,
+            # respectively, which both hold if the jump is taken.
+            | "POP_JUMP_FORWARD_IF_NONE"
+            | "POP_JUMP_BACKWARD_IF_NONE"
             | "JUMP_IF_TRUE_OR_POP"
         ):
             return True
         case (
             "POP_JUMP_FORWARD_IF_FALSE"
             | "POP_JUMP_BACKWARD_IF_FALSE"
-            | "POP_JUMP_FORWARD_IF_NONE"
-            | "POP_JUMP_BACKWARD_IF_NONE"
             | "JUMP_IF_FALSE_OR_POP"
             | "FOR_ITER"
         ):
